@@ -532,3 +532,107 @@ func UnaryFuncSweep(v any, before func(name string)) []Obs {
 	}
 	return out
 }
+
+// ScribbleExported inverts every byte a caller can reach and write through the PUBLIC surface of
+// the value behind ptr: exported struct fields, the elements of slices and arrays found there and
+// whatever exported pointers lead to. It returns the number of bytes changed. (What a caller does
+// when it edits a value it owns; other values must not notice.)
+func ScribbleExported(ptr any) int {
+	seen := map[uintptr]bool{}
+	n := 0
+	var walk func(v reflect.Value, depth int)
+	walk = func(v reflect.Value, depth int) {
+		if depth > 8 || !v.IsValid() {
+			return
+		}
+		switch v.Kind() {
+		case reflect.Ptr:
+			if v.IsNil() || seen[v.Pointer()] {
+				return
+			}
+			seen[v.Pointer()] = true
+			walk(v.Elem(), depth+1)
+		case reflect.Interface:
+			if v.IsNil() {
+				return
+			}
+			e := v.Elem()
+			if e.Kind() == reflect.Ptr || e.Kind() == reflect.Slice {
+				walk(e, depth+1)
+			}
+		case reflect.Struct:
+			t := v.Type()
+			for i := 0; i < v.NumField(); i++ {
+				if t.Field(i).PkgPath != "" {
+					continue // unexported: out of a caller's reach
+				}
+				walk(v.Field(i), depth+1)
+			}
+		case reflect.Slice:
+			if v.IsNil() || v.Len() == 0 {
+				return
+			}
+			if seen[v.Pointer()] {
+				return
+			}
+			seen[v.Pointer()] = true
+			fallthrough
+		case reflect.Array:
+			if v.Type().Elem().Kind() == reflect.Uint8 {
+				for i := 0; i < v.Len(); i++ {
+					e := v.Index(i)
+					if e.CanSet() {
+						e.SetUint(e.Uint() ^ 0xFF)
+						n++
+					}
+				}
+				return
+			}
+			for i := 0; i < v.Len(); i++ {
+				walk(v.Index(i), depth+1)
+			}
+		}
+	}
+	walk(reflect.ValueOf(ptr), 0)
+	return n
+}
+
+// ScribbleViaAccessors does the same through what the argument-free exported methods of the value
+// hand out (pointers, slices, structs holding them): a caller that edits the RouterAddress it got
+// from RouterInfo.RouterAddresses() owns that RouterInfo, nothing else.
+func ScribbleViaAccessors(ptr any) (n int) {
+	v := reflect.ValueOf(ptr)
+	if !v.IsValid() {
+		return 0
+	}
+	t := v.Type()
+	for i := 0; i < t.NumMethod(); i++ {
+		m := t.Method(i)
+		if m.Type.NumIn() != 1 || m.Type.NumOut() == 0 {
+			continue
+		}
+		switch m.Name {
+		case "String", "GoString", "Error":
+			continue
+		}
+		func() {
+			defer func() { _ = recover() }()
+			for _, res := range v.Method(i).Call(nil) {
+				switch res.Kind() {
+				case reflect.Ptr, reflect.Slice, reflect.Interface:
+					if res.Kind() == reflect.Interface && !res.IsNil() {
+						if _, isErr := res.Interface().(error); isErr {
+							continue
+						}
+					}
+					n += ScribbleExported(res.Interface())
+				case reflect.Struct:
+					p := reflect.New(res.Type())
+					p.Elem().Set(res)
+					n += ScribbleExported(p.Interface())
+				}
+			}
+		}()
+	}
+	return n
+}
